@@ -116,8 +116,24 @@ def run(ck, facts, tier, only=None):
     def cap_init(ev, vals, e):
         captured["pairs_init"], captured["rates_init"] = vals[1], vals[2]
         return Arr([Poly.atom("n")] * 2, Sym("M0"), "M0")
-    hk2 = dict(hk, **{FX + "create_initial_edges": cap_edges, FX + "create_initial_fx_array": cap_init,
-                      FX + "mut_arrays_remaining_elements": lambda ev, vals, e: Sym("ctor", "Ok", Sym("bool", "true")),
+    # the starting arrays may be built by one function or by two (rules/c09.init_builders finds them by what they return): whichever receives the pair
+    # list / the rate list is where they are captured
+    from rules import c09 as c09_
+    bh = {}
+    for bname, roles, kinds in c09_.init_builders(facts):
+        def cap(ev, vals, e, roles=roles, kinds=kinds):
+            outv = []
+            for kind in kinds:
+                if kind == "edges":
+                    captured["pairs_edges"] = vals[roles.index("pairs")]
+                    outv.append(Arr([Poly.atom("n")] * 2, Sym("E0"), "E0"))
+                else:
+                    captured["pairs_init"], captured["rates_init"] = vals[roles.index("pairs")], vals[roles.index("rates")]
+                    outv.append(Arr([Poly.atom("n")] * 2, Sym("M0"), "M0"))
+            return outv[0] if len(outv) == 1 else Tup(outv)
+        bh[bname] = cap
+    hk2 = dict(hk, **bh)
+    hk2.update({FX + "mut_arrays_remaining_elements": lambda ev, vals, e: Sym("ctor", "Ok", Sym("bool", "true")),
                       "dual_ops::convert::set_order_clone": lambda ev, vals, e: Sym("lifted", *[vkey(v) for v in vals])})
     for order, conv in (("Zero", "f64"), ("One", "dual::dual::Dual"), ("Two", "dual::dual::Dual2")):
         try:
